@@ -167,6 +167,44 @@ func (m *MdnsManager) interfaces() ([]net.Interface, []int32, error) {
 
 var _ api.MdnsInterface = (*MdnsManager)(nil)
 
+// the report callback, the provider and the auto accept setting are used by the application,
+// the hub and the provider goroutines at the same time
+
+func (m *MdnsManager) reportInterface() api.MdnsReportInterface {
+	m.mux.Lock()
+	defer m.mux.Unlock()
+
+	return m.report
+}
+
+func (m *MdnsManager) setReportInterface(report api.MdnsReportInterface) {
+	m.mux.Lock()
+	defer m.mux.Unlock()
+
+	m.report = report
+}
+
+func (m *MdnsManager) provider() api.MdnsProviderInterface {
+	m.mux.Lock()
+	defer m.mux.Unlock()
+
+	return m.mdnsProvider
+}
+
+func (m *MdnsManager) setProvider(provider api.MdnsProviderInterface) {
+	m.mux.Lock()
+	defer m.mux.Unlock()
+
+	m.mdnsProvider = provider
+}
+
+func (m *MdnsManager) isAutoAccept() bool {
+	m.mux.Lock()
+	defer m.mux.Unlock()
+
+	return m.autoaccept
+}
+
 func (m *MdnsManager) Start(cb api.MdnsReportInterface) error {
 	ifaces, ifaceIndexes, err := m.interfaces()
 	if err != nil {
@@ -178,24 +216,24 @@ func (m *MdnsManager) Start(cb api.MdnsReportInterface) error {
 		// First try avahi, if not available use zerconf
 		provider := NewAvahiProvider(ifaceIndexes)
 		if provider.Start(false, m.processMdnsEntry) {
-			m.mdnsProvider = provider
+			m.setProvider(provider)
 		} else {
 			provider.Shutdown()
 
 			// Avahi is not availble, use Zeroconf
-			m.mdnsProvider = NewZeroconfProvider(ifaces)
-			if !m.mdnsProvider.Start(false, m.processMdnsEntry) {
+			m.setProvider(NewZeroconfProvider(ifaces))
+			if !m.provider().Start(false, m.processMdnsEntry) {
 				return errors.New("No mDNS provider available")
 			}
 		}
 	case MdnsProviderSelectionAvahiOnly:
 		// Only use Avahi
-		m.mdnsProvider = NewAvahiProvider(ifaceIndexes)
-		_ = m.mdnsProvider.Start(true, m.processMdnsEntry)
+		m.setProvider(NewAvahiProvider(ifaceIndexes))
+		_ = m.provider().Start(true, m.processMdnsEntry)
 	case MdnsProviderSelectionGoZeroConfOnly:
 		// Only use Zeroconf
-		m.mdnsProvider = NewZeroconfProvider(ifaces)
-		_ = m.mdnsProvider.Start(true, m.processMdnsEntry)
+		m.setProvider(NewZeroconfProvider(ifaces))
+		_ = m.provider().Start(true, m.processMdnsEntry)
 	}
 
 	// on startup always start mDNS announcement
@@ -203,7 +241,7 @@ func (m *MdnsManager) Start(cb api.MdnsReportInterface) error {
 		return err
 	}
 
-	m.report = cb
+	m.setReportInterface(cb)
 
 	// catch signals
 	go func() {
@@ -223,12 +261,13 @@ func (m *MdnsManager) Shutdown() {
 	m.shutdownOnce.Do(func() {
 		m.UnannounceMdnsEntry()
 
-		if m.mdnsProvider == nil {
+		provider := m.provider()
+		if provider == nil {
 			return
 		}
 
-		m.mdnsProvider.Shutdown()
-		m.mdnsProvider = nil
+		provider.Shutdown()
+		m.setProvider(nil)
 	})
 }
 
@@ -236,7 +275,8 @@ func (m *MdnsManager) Shutdown() {
 // A CEM service should always invoke this on startup
 // Any other service should only invoke this whenever it is not connected to a CEM service
 func (m *MdnsManager) AnnounceMdnsEntry() error {
-	if m.mdnsProvider == nil {
+	provider := m.provider()
+	if provider == nil {
 		return nil
 	}
 
@@ -250,7 +290,7 @@ func (m *MdnsManager) AnnounceMdnsEntry() error {
 		"brand=" + m.deviceBrand,
 		"model=" + m.deviceModel,
 		"type=" + m.deviceType,
-		"register=" + fmt.Sprintf("%v", m.autoaccept),
+		"register=" + fmt.Sprintf("%v", m.isAutoAccept()),
 	}
 
 	// SHIP Requirements for Installation Process V1.0.0
@@ -267,7 +307,7 @@ func (m *MdnsManager) AnnounceMdnsEntry() error {
 
 	serviceName := m.serviceName
 
-	if err := m.mdnsProvider.Announce(serviceName, m.port, txt); err != nil {
+	if err := provider.Announce(serviceName, m.port, txt); err != nil {
 		logging.Log().Debug("mdns: failure announcing service", err)
 		return err
 	}
@@ -282,11 +322,12 @@ func (m *MdnsManager) AnnounceMdnsEntry() error {
 
 // Stop the mDNS announcement on the network
 func (m *MdnsManager) UnannounceMdnsEntry() {
-	if !m.isServiceAnnounced() || m.mdnsProvider == nil {
+	provider := m.provider()
+	if !m.isServiceAnnounced() || provider == nil {
 		return
 	}
 
-	m.mdnsProvider.Unannounce()
+	provider.Unannounce()
 	logging.Log().Debug("mdns: stop announcement")
 
 	m.setIsServiceAnnounce(false)
@@ -307,7 +348,9 @@ func (m *MdnsManager) setIsServiceAnnounce(value bool) {
 }
 
 func (m *MdnsManager) SetAutoAccept(accept bool) {
+	m.mux.Lock()
 	m.autoaccept = accept
+	m.mux.Unlock()
 
 	// if announcement is off, don't enforce a new announcement
 	if !m.isServiceAnnounced() {
@@ -561,7 +604,7 @@ func (m *MdnsManager) processMdnsEntry(elements map[string]string, name, host st
 		logging.Log().Debug("mdns: new - ski:", ski, "name:", name, "brand:", brand, "model:", model, "typ:", deviceType, "serial:", serial, "categories:", categoriesStr, "identifier:", identifier, "register:", register, "host:", host, "port:", port, "addresses:", addresses)
 	}
 
-	if m.report == nil || !updated {
+	if m.reportInterface() == nil || !updated {
 		return
 	}
 
@@ -570,7 +613,7 @@ func (m *MdnsManager) processMdnsEntry(elements map[string]string, name, host st
 }
 
 func (m *MdnsManager) RequestMdnsEntries() {
-	if m.report == nil {
+	if m.reportInterface() == nil {
 		return
 	}
 
@@ -612,5 +655,5 @@ func (m *MdnsManager) reportMdnsEntries(entries map[string]*api.MdnsEntry, newEn
 	}
 	m.mux.Unlock()
 
-	m.report.ReportMdnsEntries(entries, newEntries)
+	m.reportInterface().ReportMdnsEntries(entries, newEntries)
 }
